@@ -226,10 +226,9 @@ def t_notm(T, f, a):
 
 def t_otm(T, f, a):
   m, bs, hist = ph(f[0]), ph(f[1]), pl(f[2])
+  # (float underflow of this distribution -> ValueError is decided by the ChiOracle of the model,
+  # Model/NistFloat.lean; the former threshold min(pi) < 1e-290 guessed it)
   pi = otm_distribution(bs, m, 5)
-  if min(pi) < Fr(1, 10 ** 290):
-    # the float matrix power underflows to 0.0 and ChiSquare rejects the probability
-    raise FloatTailError('ValueError')
   T.chisq('', hist, pi, 5)
 
 
